@@ -20,7 +20,7 @@ RULE = ("Random operand trees of + / sum / * n / n * / join / make_silence and d
         "Non-trivial = operation on >=1 non-empty operand; distinct = distinct (operation, operands).")
 ASSUMPTIONS = [
     "division of an empty region is outside the statement and not generated",
-    "make_silence at an exact .5 sample tie accepts either neighbour",
+    "round(d*rate) is Python's round() of the product (ties to even), as the statement spells it",
     "held means: held on the executions listed in coverage",
 ]
 
@@ -48,7 +48,17 @@ def rand_fmt(rng):
 
 def other_fmt(rng, fmt):
     rate, width, channels = fmt
-    which = rng.randrange(3)
+    which = rng.randrange(5)
+    if which == 3:
+        # compensating change: same bytes per multi-channel sample, different width and channel count
+        for w2, c2 in ((1, 2), (2, 1), (1, 4), (4, 1), (2, 2), (2, 4), (4, 2)):
+            if (w2, c2) != (width, channels) and w2 * c2 == width * channels:
+                return (rate, w2, c2), "width-and-channels"
+        which = 1
+    if which == 4:
+        # same byte rate, different rate and width
+        w2 = {1: 2, 2: 1, 4: 2}[width]
+        return (rate * width // w2 if rate * width % w2 == 0 else rate + 1, w2, channels), "rate-and-width"
     if which == 0:
         return (rate + rng.choice((1, 10)), width, channels), "rate"
     if which == 1:
@@ -222,10 +232,7 @@ def op_silence(ctx, rng):
     case = {"op": "make_silence", "duration": d, "fmt": [rate, width, channels]}
     ctx.count("op_make_silence")
     res = make_silence(d, rate, width, channels)
-    q = Fraction(d) * rate
-    cands = {round(d * rate)}
-    if abs((q - math.floor(q)) - Fraction(1, 2)) <= Fraction(1, 10 ** 9):
-        cands |= {math.floor(q), math.floor(q) + 1}
+    cands = {round(d * rate)}  # round() as the statement spells it: Python's, ties to even
     n = len(bytes(res)) // (width * channels)
     ctx.case(repr(case), n > 0)
     if fmt_of(res) != (rate, width, channels):
